@@ -10,14 +10,21 @@ it are kept below as regression witnesses (`C03_width_regressions`).
 Main results
 * `C03_size_sound`     — the soundness invariant of the size loop: final size ∈ [size, maxSize].
 * `C03_pcr8_width`     — umbrella theorem on the statement list that enters `fix_addresses`.
-* `C03_pcr_label`      — plain label: `PcrField s t` (the PCR clause of `C03_Statement`) under "no ORG between".
-* `C03_pcr_label_width`, `C03_pcr_expr_width` — the distance `d` computed in ℤ lies in −128..127;
+* `C03_pcr8_in_range`  — (batch B2) EVERY 8-bit PCR statement of EVERY accepted program, ORG or not: the field is the
+  two's complement byte of the signed 16-bit distance `d` from the end of the statement to its target, `−128 ≤ d ≤ 127`
+  (`fix_addresses` now rejects an 8-bit form whose distance is out of range).
+* `C03_pcr_label`      — plain label: `PcrField s t`, now WITHOUT the hypothesis "no ORG between";
+  `C03_pcr_clause`: the PCR clause of `C03_Statement` holds for every accepted program.
+* `C03_pcr_label_width`, `C03_pcr_expr_width` — (no ORG between) the distance `d` computed in ℤ lies in −128..127;
   `fix_addresses` computes `NumericValue(d, size_hint=2)`, `fit_operand_width` accepts it, and the final field is the
-  two's complement byte `d mod 256`.
-* `C03_pcr_org_counterexample` — the hypothesis "no ORG between" cannot be dropped (witness with the target 200 bytes
-  away; the former witness, 4093 bytes away, is now rejected: `C03_pcr_org_counterexample_fixed`).
+  two's complement byte `d mod 256`.  `C03_pcr_label_in_range`, `C03_pcr_expr_in_range`: the same without the ORG
+  hypothesis, `d` being the signed 16-bit distance.
+* `C03_pcr_org_counterexample_fixed` — `S LEAX T,PCR / ORG $CB / T NOP` (and the older `ORG $1000` witness) is a
+  diagnostic now; `C03_pcr_org_example`: an ORG in between with the target in range is accepted and correct.
+* `C03_pcr_plus_negative_finding` — `L+N,PCR` with `N` negative below `−address(L)`: the target is `|address + N|`.
 -/
 import CoCoVerif.Lemmas.PcrWidthFix
+import CoCoVerif.Lemmas.PcrWidthPost
 import CoCoVerif.Props.C03
 
 namespace CoCo.Props
@@ -100,18 +107,18 @@ private theorem plain_addl {fs : Files} {lines : List Str} {a : Assembly} {st : 
   exact ⟨rfl, rfl⟩
 
 /-- **C03, PCR clause, plain label**: for every accepted program, every PCR statement `s` whose offset is the label
-of statement `t`, with no ORG between the two: `PcrField s t` — the field (before `fit_operand_width` re-renders it) is
-`NumericValue(pcrJump, size_hint = pcrHint)` and, on the 8-bit form, `−128 ≤ pcrJump ≤ 127`.
-This is the second clause of `C03_Statement` under the hypothesis "no ORG in between". -/
+of statement `t` — ORG in between or not (batch B2: the hypothesis "no ORG between" is gone) — `PcrField s t`: the
+field (before `fit_operand_width` re-renders it) is `NumericValue(pcrJump, size_hint = pcrHint)`, `pcrJump` the signed
+16-bit distance from the end of `s` to the ADDRESS of `t`, and, on the 8-bit form, `−128 ≤ pcrJump ≤ 127`.
+This is the second clause of `C03_Statement`. -/
 theorem C03_pcr_label {fs : Files} {lines : List Str} {a : Assembly} (h : assemble fs lines = .ok a)
     {i b : Nat} {m : Mode} {s t : Stmt} (hs : a.stmts[i]? = some s) (hn : s.pkg.needsRes = true)
-    (hl : s.operand.left = .val (.address b m)) (ht : a.stmts[b]? = some t)
-    (hno : ∀ j u, min b i < j → j ≤ max b i → a.stmts[j]? = some u → u.row.mnemonic ≠ "ORG") :
+    (hl : s.operand.left = .val (.address b m)) (ht : a.stmts[b]? = some t) :
     PcrField s t := by
   obtain ⟨st⟩ := assemble_stages h
   obtain ⟨s3, s4, pre⟩ := st.pcr_pre hs hn
   obtain ⟨he, hb⟩ := plain_addl pre hl
-  obtain ⟨target, start, v, htgt, hstart, hnum, hsv⟩ := pre.stored
+  obtain ⟨target, start, v, htgt, hstart, hnum, hsv, _⟩ := pre.stored
   obtain ⟨x, hx⟩ := st.chained.isSome hs
   obtain ⟨y, hy⟩ := st.chained.isSome ht
   have hstart' : start = x := by
@@ -124,21 +131,45 @@ theorem C03_pcr_label {fs : Files} {lines : List Str} {a : Assembly} (h : assemb
   have hj : pcrJump s target start = pcrJump s4 target start := hj' _ _
   refine ⟨start, target, v, hx, hy, by rw [hj, hhint]; exact hnum, by rw [hwa]; exact hsv, ?_⟩
   intro hh
-  obtain ⟨b', hb', _, hw⟩ := st.pcr8_stored hs hn hh pre
+  obtain ⟨target', x', _, htgt', hx', hlo, hhi, _⟩ := st.pcr8_any hs hh pre
+  rw [htgt] at htgt'; rw [hx] at hx'
+  have e1 : target = target' := by cases htgt'; rfl
+  have e2 : start = x' := Option.some.inj hx'
+  subst e1 e2
+  rw [pcrJump_hint2 hh]
+  exact ⟨hlo, hhi⟩
+
+/-- **the PCR clause of `C03_Statement` holds for every accepted program** -/
+theorem C03_pcr_clause {fs : Files} {lines : List Str} {a : Assembly} (h : assemble fs lines = .ok a) :
+    ∀ (i b : Nat) (m : Mode) (s t : Stmt), a.stmts[i]? = some s → s.pkg.needsRes = true →
+      s.operand.left = .val (.address b m) → a.stmts[b]? = some t → PcrField s t :=
+  fun _ _ _ _ _ hs hn hl ht => C03_pcr_label h hs hn hl ht
+
+/-- plain label, 8-bit form, ORG or not: `d := address(t) − address(s) − size(s)` read as a signed 16-bit distance
+satisfies `−128 ≤ d ≤ 127`, `NumericValue(d, size_hint=2)` is what `fix_addresses` computes and `fit_operand_width`
+accepts, and the final field is the byte `d mod 256` -/
+theorem C03_pcr_label_in_range {fs : Files} {lines : List Str} {a : Assembly} (h : assemble fs lines = .ok a)
+    {i b : Nat} {m : Mode} {s t : Stmt} (hs : a.stmts[i]? = some s) (hn : s.pkg.needsRes = true)
+    (hh : s.pcrHint = 2) (hl : s.operand.left = .val (.address b m)) (ht : a.stmts[b]? = some t) :
+    ∃ x y v, addrNat s = some x ∧ addrNat t = some y ∧
+      -128 ≤ sdist16 ((y : Int) - x - s.pkg.size) ∧ sdist16 ((y : Int) - x - s.pkg.size) ≤ 127 ∧
+      numericOfInt (sdist16 ((y : Int) - x - s.pkg.size)) (some 2) .none = .ok v ∧
+      fitWidth (withAdditional s v) = .ok s ∧
+      s.pkg.additional = .numeric (sdist16 ((y : Int) - x - s.pkg.size) % 256).toNat (some 2) .extended false := by
+  obtain ⟨st⟩ := assemble_stages h
+  obtain ⟨s3, s4, pre⟩ := st.pcr_pre hs hn
+  obtain ⟨he, hb⟩ := plain_addl pre hl
+  obtain ⟨b', t', x, y, target, v, hb', _, ht', hx, hy, htg, hlo, hhi, hnum, hfit, hadd⟩ :=
+    st.pcr8_any_target hs hn hh pre
   rw [hb] at hb'
   have : b = b' := Option.some.inj hb'
   subst this
-  obtain ⟨x', y', v', d, hx', hy'', hlo, hhi, _, _, _, hd⟩ := hw t ht hno
-  rw [hx] at hx'; rw [hy] at hy''
-  have e1 : start = x' := Option.some.inj hx'
-  have e2 : target = y' := Option.some.inj hy''
-  subst e1 e2
-  rcases hd with ⟨_, hd⟩ | ⟨l, r, op, m', k, _, _, _, hexp, _⟩
-  · rw [pcrJump_hint2 hh]
-    omega
+  rw [ht] at ht'; cases ht'
+  rcases htg with ⟨_, rfl⟩ | ⟨l, r, op, m', k, _, _, _, hexp, _⟩
+  · exact ⟨x, target, v, hx, hy, hlo, hhi, hnum, hfit, hadd⟩
   · rw [hexp] at he; simp [Value.isAddrExpr] at he
 
-/-- plain label, 8-bit form, in the terms of the task statement: `jump := address(t) − address(s) − size(s)`
+/-- plain label, 8-bit form, no ORG in between, in the terms of the task statement: `jump := address(t) − address(s) − size(s)`
 computed in ℤ satisfies `−128 ≤ jump ≤ 127`, `NumericValue(jump, size_hint=2)` is what `fix_addresses` computes and
 `fit_operand_width` accepts, and the final field is the byte `jump mod 256` -/
 theorem C03_pcr_label_width {fs : Files} {lines : List Str} {a : Assembly} (h : assemble fs lines = .ok a)
@@ -164,11 +195,13 @@ theorem C03_pcr_label_width {fs : Files} {lines : List Str} {a : Assembly} (h : 
 
 /-! ### `label ± k` -/
 
-/-- **`label ± k,PCR` on the 8-bit form.**  `l`, `r` are the two sides of the resolved expression, one of them
-the label of statement `b` (`relIndex`).  Then the operator is `+` or `-`, the other side is a number `k`, and
-the signed distance to `address(t) ± k` computed in ℤ (no wrap, even when `address(t) − k` is negative) lies in
-`−128 .. 127`, is what `fix_addresses` computes as `NumericValue(d, size_hint=2)`, passes `fit_operand_width`, and
-ends as the byte `d mod 256`. -/
+/-- **`label ± k,PCR` on the 8-bit form, no ORG in between.**  `l`, `r` are the two sides of the resolved expression,
+one of them the label of statement `b` (`relIndex`).  Then the operator is `+` or `-`, the other side is a number with
+signed value `c = signedK k nk` (batch B2: a constant written or defined with a minus sign counts negatively), and the
+signed distance to `|address(t) + c|` resp. `address(t) − c` computed in ℤ (no wrap, even when `address(t) − c` is
+negative) lies in `−128 .. 127`, is what `fix_addresses` computes as `NumericValue(d, size_hint=2)`, passes
+`fit_operand_width`, and ends as the byte `d mod 256`.  (For the magnitude in the `+` case see
+`C03_pcr_plus_negative_finding`.) -/
 theorem C03_pcr_expr_width {fs : Files} {lines : List Str} {a : Assembly} (h : assemble fs lines = .ok a)
     {i b : Nat} {l r : Value} {op : Char} {m : Mode} {s t : Stmt} (hs : a.stmts[i]? = some s)
     (hn : s.pkg.needsRes = true) (hh : s.pcrHint = 2)
@@ -177,12 +210,14 @@ theorem C03_pcr_expr_width {fs : Files} {lines : List Str} {a : Assembly} (h : a
     (hno : ∀ j u, min b i < j → j ≤ max b i → a.stmts[j]? = some u → u.row.mnemonic ≠ "ORG") :
     ∃ x y k hk mk nk v, addrNat s = some x ∧ addrNat t = some y ∧
       (if l.isAddress then r else l) = .numeric k hk mk nk ∧ (op = '+' ∨ op = '-') ∧
-      -128 ≤ (if op = '+' then (y : Int) + k else (y : Int) - k) - x - s.pkg.size ∧
-      (if op = '+' then (y : Int) + k else (y : Int) - k) - x - s.pkg.size ≤ 127 ∧
-      numericOfInt ((if op = '+' then (y : Int) + k else (y : Int) - k) - x - s.pkg.size) (some 2) .none = .ok v ∧
+      -128 ≤ (if op = '+' then (((y : Int) + signedK k nk).natAbs : Int) else (y : Int) - signedK k nk) - x - s.pkg.size ∧
+      (if op = '+' then (((y : Int) + signedK k nk).natAbs : Int) else (y : Int) - signedK k nk) - x - s.pkg.size ≤ 127 ∧
+      numericOfInt ((if op = '+' then (((y : Int) + signedK k nk).natAbs : Int) else (y : Int) - signedK k nk)
+        - x - s.pkg.size) (some 2) .none = .ok v ∧
       fitWidth (withAdditional s v) = .ok s ∧
       s.pkg.additional = .numeric
-        (((if op = '+' then (y : Int) + k else (y : Int) - k) - x - s.pkg.size) % 256).toNat (some 2) .extended false := by
+        (((if op = '+' then (((y : Int) + signedK k nk).natAbs : Int) else (y : Int) - signedK k nk)
+          - x - s.pkg.size) % 256).toNat (some 2) .extended false := by
   obtain ⟨st⟩ := assemble_stages h
   obtain ⟨s3, s4, pre⟩ := st.pcr_pre hs hn
   have hop : s.operand = s4.operand := pre.same.2.2.2.2
@@ -214,18 +249,127 @@ theorem C03_pcr_expr_width {fs : Files} {lines : List Str} {a : Assembly} (h : a
       · simpa [hne] using hnum
       · simpa [hne] using hadd
 
+/-- **`label ± k,PCR` on the 8-bit form, ORG or not** (batch B2): the target is `|address(t) + c|` resp.
+`(address(t) − c) mod 65536` (`Target8`), and the signed 16-bit distance `d` from the end of `s` to it lies in
+`−128 .. 127` and ends as the byte `d mod 256` -/
+theorem C03_pcr_expr_in_range {fs : Files} {lines : List Str} {a : Assembly} (h : assemble fs lines = .ok a)
+    {i b : Nat} {l r : Value} {op : Char} {m : Mode} {s t : Stmt} (hs : a.stmts[i]? = some s)
+    (hn : s.pkg.needsRes = true) (hh : s.pcrHint = 2)
+    (hl : s.operand.left = .val (.expr l r op m true))
+    (hb : (if l.isAddress then l.int? else r.int?) = some b) (ht : a.stmts[b]? = some t) :
+    ∃ x y k hk mk nk target v, addrNat s = some x ∧ addrNat t = some y ∧
+      (if l.isAddress then r else l) = .numeric k hk mk nk ∧
+      ((op = '+' ∧ target = ((y : Int) + signedK k nk).natAbs) ∨
+       (op = '-' ∧ (target : Int) = ((y : Int) - signedK k nk) % 65536)) ∧
+      -128 ≤ sdist16 ((target : Int) - x - s.pkg.size) ∧ sdist16 ((target : Int) - x - s.pkg.size) ≤ 127 ∧
+      numericOfInt (sdist16 ((target : Int) - x - s.pkg.size)) (some 2) .none = .ok v ∧
+      fitWidth (withAdditional s v) = .ok s ∧
+      s.pkg.additional = .numeric (sdist16 ((target : Int) - x - s.pkg.size) % 256).toNat (some 2) .extended false := by
+  obtain ⟨st⟩ := assemble_stages h
+  obtain ⟨s3, s4, pre⟩ := st.pcr_pre hs hn
+  have hop : s.operand = s4.operand := pre.same.2.2.2.2
+  have hadd4 : s4.pkg.additional = .expr l r op m true :=
+    pre.left pre.choices (.expr l r op m true) (by rw [← hop]; exact hl)
+  obtain ⟨b', t', x, y, target, v, hb', _, ht', hx, hy, htg, hlo, hhi, hnum, hfit, hadd⟩ :=
+    st.pcr8_any_target hs hn hh pre
+  rw [hadd4] at hb'
+  have hb'' : (if l.isAddress = true then l.int? else r.int?) = some b' := hb'
+  rw [hb] at hb''
+  have : b = b' := Option.some.inj hb''
+  subst this
+  rw [ht] at ht'; cases ht'
+  rw [hadd4] at htg
+  rcases htg with ⟨he, _⟩ | ⟨l', r', op', m', k, hk, mk, nk, hexp, hoth, hcase⟩
+  · simp [Value.isAddrExpr] at he
+  · cases hexp
+    exact ⟨x, y, k, hk, mk, nk, target, v, hx, hy, hoth, hcase, hlo, hhi, hnum, hfit, hadd⟩
+
+/-! ### every 8-bit PCR statement of every accepted program (batch B2) -/
+
+/-- **C03, second sentence: "a displacement is never emitted in a field too narrow for it"** — for EVERY accepted
+program, ORG or not, on the statement list `ss4` that enters `fix_addresses` (equal to `a.stmts` except for
+`pkg.additional`).  Every PCR statement `s` (index `i`) settled on the 8-bit form: its offset names a statement
+`b` (`relIndex`), is a plain label or `label ± number` (`exprForces = false`), the statement `b` exists (`t`, address
+`y`), the target is `y`, `|y + c|` or `(y − c) mod 65536` (`Target8`), and the stored field is the two's complement
+byte (two hex digits) of `d = sdist16 (target − address(s) − size(s))`, the signed 16-bit distance from the end of
+the statement to the target, with `−128 ≤ d ≤ 127`. -/
+theorem C03_pcr8_in_range {fs : Files} {lines : List Str} {a : Assembly} (h : assemble fs lines = .ok a) :
+    ∃ ss4 : List Stmt, PW SameButAdditional ss4 a.stmts ∧
+      ∀ (i : Nat) (s4 s : Stmt), ss4[i]? = some s4 → a.stmts[i]? = some s →
+        s.pkg.needsRes = true → s.pcrHint = 2 →
+        ∃ b t x y target v, relIndex s4.pkg.additional = some b ∧ exprForces s4.pkg.additional = false ∧
+          a.stmts[b]? = some t ∧ addrNat s = some x ∧ addrNat t = some y ∧ Target8 s4.pkg.additional y target ∧
+          -128 ≤ sdist16 ((target : Int) - x - s.pkg.size) ∧ sdist16 ((target : Int) - x - s.pkg.size) ≤ 127 ∧
+          numericOfInt (sdist16 ((target : Int) - x - s.pkg.size)) (some 2) .none = .ok v ∧
+          fitWidth (withAdditional s v) = .ok s ∧
+          s.pkg.additional =
+            .numeric (sdist16 ((target : Int) - x - s.pkg.size) % 256).toNat (some 2) .extended false := by
+  obtain ⟨st⟩ := assemble_stages h
+  refine ⟨st.ss4, fixAll_pw st.hfix, ?_⟩
+  intro i s4 s hs4 hs hn hh
+  obtain ⟨s3, s4', pre⟩ := st.pcr_pre hs hn
+  have : s4' = s4 := by have := pre.h4; rw [hs4] at this; exact (Option.some.inj this).symm
+  subst this
+  exact st.pcr8_any_target hs hn hh pre
+
+/-- **the width hint is the emitted post byte**: every PCR statement with a label offset of an accepted program has
+`pcrHint = 2` and a post byte `1xx01100` (low nibble `$C`: "8-bit offset from PC") or `pcrHint = 4` and `1xx01101`
+(low nibble `$D`: "16-bit offset from PC").  So the hypothesis `s.pcrHint = 2` of the width theorems says "the statement
+carries the 8-bit post byte". -/
+theorem C03_pcr_postbyte {fs : Files} {lines : List Str} {a : Assembly} (h : assemble fs lines = .ok a)
+    {i : Nat} {s : Stmt} (hs : a.stmts[i]? = some s) (hn : s.pkg.needsRes = true) :
+    ∃ pb, s.pkg.postByte.int? = some pb ∧
+      ((s.pcrHint = 2 ∧ pb % 16 = 12) ∨ (s.pcrHint = 4 ∧ pb % 16 = 13)) := by
+  obtain ⟨st⟩ := assemble_stages h
+  obtain ⟨s3, s4, pre⟩ := st.pcr_pre hs hn
+  exact st.pcr_postbyte pre
+
+/-- ... in particular a PCR statement whose post byte has the low nibble `$C` is on the 8-bit form -/
+theorem C03_pcr_postbyte8 {fs : Files} {lines : List Str} {a : Assembly} (h : assemble fs lines = .ok a)
+    {i pb : Nat} {s : Stmt} (hs : a.stmts[i]? = some s) (hn : s.pkg.needsRes = true)
+    (hpb : s.pkg.postByte.int? = some pb) (h8 : pb % 16 = 12) : s.pcrHint = 2 := by
+  obtain ⟨pb', h1, h2⟩ := C03_pcr_postbyte h hs hn
+  rw [hpb] at h1
+  cases h1
+  rcases h2 with ⟨h2, _⟩ | ⟨_, h2⟩
+  · exact h2
+  · omega
+
+/-- `C03_pcr8_in_range` with the hypothesis on the EMITTED post byte (low nibble `$C`) instead of the width hint -/
+theorem C03_pcr8_in_range_postbyte {fs : Files} {lines : List Str} {a : Assembly} (h : assemble fs lines = .ok a) :
+    ∃ ss4 : List Stmt, PW SameButAdditional ss4 a.stmts ∧
+      ∀ (i pb : Nat) (s4 s : Stmt), ss4[i]? = some s4 → a.stmts[i]? = some s →
+        s.pkg.needsRes = true → s.pkg.postByte.int? = some pb → pb % 16 = 12 →
+        ∃ b t x y target v, relIndex s4.pkg.additional = some b ∧ exprForces s4.pkg.additional = false ∧
+          a.stmts[b]? = some t ∧ addrNat s = some x ∧ addrNat t = some y ∧ Target8 s4.pkg.additional y target ∧
+          -128 ≤ sdist16 ((target : Int) - x - s.pkg.size) ∧ sdist16 ((target : Int) - x - s.pkg.size) ≤ 127 ∧
+          numericOfInt (sdist16 ((target : Int) - x - s.pkg.size)) (some 2) .none = .ok v ∧
+          fitWidth (withAdditional s v) = .ok s ∧
+          s.pkg.additional =
+            .numeric (sdist16 ((target : Int) - x - s.pkg.size) % 256).toNat (some 2) .extended false := by
+  obtain ⟨ss4, hpw, hall⟩ := C03_pcr8_in_range h
+  exact ⟨ss4, hpw, fun i pb s4 s hs4 hs hn hpb h8 => hall i s4 s hs4 hs hn (C03_pcr_postbyte8 h hs hn hpb h8)⟩
+
+/-- the emitted byte: the last byte of an 8-bit PCR statement is `d mod 256`, `d` as in `C03_pcr8_in_range` -/
+theorem C03_pcr8_byte {s : Stmt} {bs : Bytes} {d : Int} (hb : stmtBytes s = some bs)
+    (ha : s.pkg.additional = .numeric (d % 256).toNat (some 2) .extended false) :
+    ∃ pre, bs = pre ++ [(d % 256).toNat] := by
+  have hlt : (d % 256).toNat < 256 := by omega
+  exact stmtBytes_suffix hb (by rw [ha]; exact emit8 _ hlt)
+
 /-! ### summary -/
 
 /-- What is proved of the width invariant.  (1) the size loop is sound: final sizes lie in `[size, maxSize]`;
-(2) plain label: `PcrField` under "no ORG between"; (3) every 8-bit PCR statement: offset is a plain label or
-`label ± number`, the distance in ℤ fits `−128..127`, and the final field is its two's complement byte. -/
+(2) plain label: `PcrField` for every accepted program (batch B2: no hypothesis on ORGs); (3) every 8-bit PCR
+statement with no ORG in between: offset is a plain label or `label ± number`, the distance in ℤ fits `−128..127`,
+and the final field is its two's complement byte; (4) (batch B2) every 8-bit PCR statement, ORG or not: the field is
+the two's complement byte of the signed 16-bit distance to the target, which fits `−128..127`. -/
 theorem C03_width_partial :
     (∀ (ss1 ss2 fin : List Stmt) (fuel : Nat), translateAll ss1 = some ss2 → pcrLoop fuel ss2 = .ok fin →
       PW (fun s f => s.pkg.size ≤ f.pkg.size ∧ f.pkg.size ≤ s.pkg.maxSize ∧ (s.fixedSize = true → f = s)) ss2 fin) ∧
     (∀ (fs : Files) (lines : List Str) (a : Assembly), assemble fs lines = .ok a →
       ∀ (i b : Nat) (m : Mode) (s t : Stmt), a.stmts[i]? = some s → s.pkg.needsRes = true →
         s.operand.left = .val (.address b m) → a.stmts[b]? = some t →
-        (∀ j u, min b i < j → j ≤ max b i → a.stmts[j]? = some u → u.row.mnemonic ≠ "ORG") →
         PcrField s t) ∧
     (∀ (fs : Files) (lines : List Str) (a : Assembly), assemble fs lines = .ok a →
       ∃ ss4 : List Stmt, PW SameButAdditional ss4 a.stmts ∧
@@ -237,10 +381,22 @@ theorem C03_width_partial :
               ∃ x y v, ∃ d : Int, addrNat s = some x ∧ addrNat t = some y ∧ -128 ≤ d ∧ d ≤ 127 ∧
                 numericOfInt d (some 2) .none = .ok v ∧ fitWidth (withAdditional s v) = .ok s ∧
                 s.pkg.additional = .numeric (d % 256).toNat (some 2) .extended false ∧
-                Dist8 s4.pkg.additional x y s.pkg.size d) :=
+                Dist8 s4.pkg.additional x y s.pkg.size d) ∧
+    (∀ (fs : Files) (lines : List Str) (a : Assembly), assemble fs lines = .ok a →
+      ∃ ss4 : List Stmt, PW SameButAdditional ss4 a.stmts ∧
+        ∀ (i : Nat) (s4 s : Stmt), ss4[i]? = some s4 → a.stmts[i]? = some s →
+          s.pkg.needsRes = true → s.pcrHint = 2 →
+          ∃ b t x y target v, relIndex s4.pkg.additional = some b ∧ exprForces s4.pkg.additional = false ∧
+            a.stmts[b]? = some t ∧ addrNat s = some x ∧ addrNat t = some y ∧ Target8 s4.pkg.additional y target ∧
+            -128 ≤ sdist16 ((target : Int) - x - s.pkg.size) ∧ sdist16 ((target : Int) - x - s.pkg.size) ≤ 127 ∧
+            numericOfInt (sdist16 ((target : Int) - x - s.pkg.size)) (some 2) .none = .ok v ∧
+            fitWidth (withAdditional s v) = .ok s ∧
+            s.pkg.additional =
+              .numeric (sdist16 ((target : Int) - x - s.pkg.size) % 256).toNat (some 2) .extended false) :=
   ⟨fun _ _ _ _ ht h => C03_size_sound ht h,
-   fun _ _ _ h _ _ _ _ _ hs hn hl ht hno => C03_pcr_label h hs hn hl ht hno,
-   fun _ _ _ h => C03_pcr8_width h⟩
+   fun _ _ _ h _ _ _ _ _ hs hn hl ht => C03_pcr_label h hs hn hl ht,
+   fun _ _ _ h => C03_pcr8_width h,
+   fun _ _ _ h => C03_pcr8_in_range h⟩
 
 /-! ### witnesses (kernel-checked) -/
 
@@ -319,56 +475,75 @@ theorem C03_width_regressions :
    checkProgram_sound (lines := C03_regressionB)
       (check := fun a => pcrIs a 2 4 4 201 [0x30, 0x8D, 0x00, 0xC4]) (by decide +kernel) []⟩
 
-/-! ### the hypothesis "no ORG between" cannot be dropped -/
+/-! ### an ORG between statement and target (batch B2: the 8-bit form is range-checked against ADDRESSES) -/
 
 /-- the size loop measures distances in sizes; an ORG between statement and target moves the target.
-(The former witness: the target is 4093 bytes away.) -/
+(The first witness: the target is 4093 bytes away.) -/
 def C03_pcrOrgWitness : List Str := ["S LEAX T,PCR\n", " ORG $1000\n", "T NOP\n"].map String.toList
 
-/-- REPAIRED (formerly `C03_pcr_org_counterexample`): `S LEAX T,PCR / ORG $1000 / T NOP` used to be accepted with
-the 8-bit form and the byte `$FF` although `T` is 4093 bytes away.  `fit_operand_width` now rejects the program
-("value 4093 does not fit in 1 byte(s)"), whatever the host files are -/
-theorem C03_pcr_org_counterexample_fixed (fs : Files) : assemble fs C03_pcrOrgWitness = .diag :=
-  diagProgram_sound (by decide +kernel) fs
-
-/-- the witness that is left: with the ORG at `$CB` the target is 200 bytes away; 200 fits one byte as an UNSIGNED
-number, so `fit_operand_width` lets it pass, and the CPU reads the byte `$C8` as −56 -/
+/-- the second witness: with the ORG at `$CB` the target is 200 bytes away; 200 fits one byte as an UNSIGNED number,
+so `fit_operand_width` used to let it pass, and the CPU read the byte `$C8` as −56 -/
 def C03_pcrOrgWitness200 : List Str := ["S LEAX T,PCR\n", " ORG $CB\n", "T NOP\n"].map String.toList
 
-private def pcrOrgCheck (a : Assembly) : Bool :=
-  pcrIs a 0 2 3 0 [0x30, 0x8C, 0xC8] &&
-  (match a.stmts[0]?, a.stmts[2]? with
-   | some s, some t =>
-     (match s.operand.left with | .val (.address 2 _) => true | _ => false) && addrNat t == some 203
-   | _, _ => false)
+/-- REPAIRED (formerly `C03_pcr_org_counterexample`, twice): `S LEAX T,PCR / ORG $1000 / T NOP` used to be accepted
+with the 8-bit form and the byte `$FF` although `T` is 4093 bytes away; after `fit_operand_width` rejected that one,
+`S LEAX T,PCR / ORG $CB / T NOP` was still accepted with the byte `$C8` although `T` is 200 bytes away (`¬ PcrField`).
+Both are diagnostics now ("out of range of the 8-bit offset"), whatever the host files are; and by `C03_pcr_label`
+no accepted program violates `PcrField` any more -/
+theorem C03_pcr_org_counterexample_fixed (fs : Files) :
+    assemble fs C03_pcrOrgWitness = .diag ∧ assemble fs C03_pcrOrgWitness200 = .diag :=
+  ⟨diagProgram_sound (by decide +kernel) fs, diagProgram_sound (by decide +kernel) fs⟩
 
-/-- `S LEAX T,PCR / ORG $CB / T NOP` is accepted with the 8-bit form although `T` is 200 bytes away (the byte
-`$C8` = −56 is emitted): `PcrField` fails, so `C03_pcr_label` needs its hypothesis "no ORG between" -/
-theorem C03_pcr_org_counterexample :
-    ∃ a s t m, assemble [] C03_pcrOrgWitness200 = .ok a ∧ a.stmts[0]? = some s ∧ a.stmts[2]? = some t ∧
-      s.pkg.needsRes = true ∧ s.operand.left = .val (.address 2 m) ∧ s.pcrHint = 2 ∧
-      stmtBytes s = some [0x30, 0x8C, 0xC8] ∧ ¬ PcrField s t := by
-  obtain ⟨a, ha, hc⟩ := checkProgram_sound (lines := C03_pcrOrgWitness200) (check := pcrOrgCheck) (by decide +kernel) []
+/-- an ORG between the statement and an in-range target: accepted, 8-bit form, and the field reaches the target
+(`T` at `$10`, displacement `$10 − 0 − 3 = $0D`); the hypotheses of `C03_pcr_label` / `C03_pcr8_in_range` are
+satisfiable across an ORG -/
+def C03_pcrOrgExample : List Str := ["S LEAX T,PCR\n", " ORG $10\n", "T NOP\n"].map String.toList
+
+private def pcrOrgCheck (a : Assembly) : Bool :=
+  pcrIs a 0 2 3 0 [0x30, 0x8C, 0x0D] &&
+  (match a.stmts[0]?, a.stmts[1]?, a.stmts[2]? with
+   | some s, some o, some t =>
+     (match s.operand.left with | .val (.address 2 _) => true | _ => false) && o.row.mnemonic == "ORG" &&
+       addrNat t == some 16
+   | _, _, _ => false)
+
+theorem C03_pcr_org_example :
+    ∃ a s o t m, assemble [] C03_pcrOrgExample = .ok a ∧ a.stmts[0]? = some s ∧ a.stmts[1]? = some o ∧
+      a.stmts[2]? = some t ∧ o.row.mnemonic = "ORG" ∧
+      s.pkg.needsRes = true ∧ s.operand.left = .val (.address 2 m) ∧ s.pcrHint = 2 ∧ addrNat s = some 0 ∧
+      addrNat t = some 16 ∧ stmtBytes s = some [0x30, 0x8C, 0x0D] ∧ PcrField s t := by
+  obtain ⟨a, ha, hc⟩ := checkProgram_sound (lines := C03_pcrOrgExample) (check := pcrOrgCheck) (by decide +kernel) []
   unfold pcrOrgCheck at hc
   simp only [Bool.and_eq_true] at hc
   obtain ⟨h1, h2⟩ := hc
   obtain ⟨s, hs, hn, hh, hsz, hx, hb⟩ := pcrIs_spec h1
   rw [hs] at h2
   split at h2
-  · rename_i s' t hs' ht
+  · rename_i s' o t hs' ho ht
     cases hs'
     simp only [Bool.and_eq_true, beq_iff_eq] at h2
-    obtain ⟨h3, h4⟩ := h2
+    obtain ⟨⟨h3, h4⟩, h5⟩ := h2
     split at h3
     · rename_i m hl
-      refine ⟨a, s, t, m, ha, hs, ht, hn, hl, hh, hb, ?_⟩
-      rintro ⟨x, y, v, hx', hy', _, _, hw⟩
-      rw [hx] at hx'; rw [h4] at hy'
-      cases hx'; cases hy'
-      have := (hw hh).2
-      rw [pcrJump_hint2 hh, hsz] at this
-      omega
+      exact ⟨a, s, o, t, m, ha, hs, ho, ht, h4, hn, hl, hh, hx, h5, hb, C03_pcr_label ha hs hn hl ht⟩
     · cases h3
   · cases h2
+
+/-! ### finding: `label + N,PCR` with a negative `N` below `−address(label)` -/
+
+/-- `N EQU -5 / L LEAX L+N,PCR` at address 0: `fix_addresses` takes the `.int` (the MAGNITUDE) of
+`calculate_address_offset`'s result `0 + (−5)`, so the target is 5, not `−5 mod 65536 = $FFFB`; the byte `$02`
+(`5 − 0 − 3`) is emitted where `$F8` (`−5 − 0 − 3`) reaches `L−5`.  (`L-5,PCR` is right: `−` is reduced modulo 65536;
+`FDB L+N`, `LDX #L+N`, `LDX L+N` are right too: `$FFFB`, two's complement at four digits.)  True of the model and of
+the real code; see `fixRel_target_expr`, `Target8`. -/
+def C03_plusNegativeWitness : List Str := ["N EQU -5\n", "L LEAX L+N,PCR\n", " LEAX L-5,PCR\n"].map String.toList
+
+theorem C03_pcr_plus_negative_finding :
+    ∃ a, assemble [] C03_plusNegativeWitness = .ok a ∧
+      pcrIs a 1 2 3 0 [0x30, 0x8C, 0x02] = true ∧ pcrIs a 2 2 3 3 [0x30, 0x8C, 0xF5] = true := by
+  obtain ⟨a, ha, hc⟩ := checkProgram_sound (lines := C03_plusNegativeWitness)
+    (check := fun a => pcrIs a 1 2 3 0 [0x30, 0x8C, 0x02] && pcrIs a 2 2 3 3 [0x30, 0x8C, 0xF5]) (by decide +kernel) []
+  simp only [Bool.and_eq_true] at hc
+  exact ⟨a, ha, hc.1, hc.2⟩
 
 end CoCo.Props
